@@ -46,6 +46,14 @@ struct Extra<QXmppMixConfigItem> {
     }
 };
 template<>
+struct Extra<QXmppMixInfoItem> {
+    static void add(States<QXmppMixInfoItem> &v)
+    {
+        for (auto t : { QXmppDataForm::Form, QXmppDataForm::Submit, QXmppDataForm::Result })
+            v.push_back({ u"form-type-%1"_s.arg(int(t)), [t](QXmppMixInfoItem &f) { f.setFormType(t); } });
+    }
+};
+template<>
 struct Extra<QXmppEntityTimeIq> {
     static void add(States<QXmppEntityTimeIq> &v)
     {
